@@ -14,6 +14,8 @@ GOOD2 = "model Fine parameter Real p = 2; Real y; equation y = p; end Fine;\n"
 UNF = "model Unf extends Missing; end Unf;\n"
 BAD = "model Broken Real x equation end\n"
 
+NOTUTF8 = b"model Latin Real x \xff\xfe; end Latin;\n"      # a file that is not UTF-8 encoded is a file with a parse error
+
 MODEL_OK = {"Good": True, "Fine": True, "Unf": False, "Nope": False}
 
 
@@ -36,7 +38,10 @@ def scenario(tmp, files, missing_paths, bad_outdir, models, target, options):
     d.mkdir()
     contents = {"Good": GOOD, "Fine": GOOD2, "Unf": UNF, "Broken": BAD}
     for f in files:
-        (d / (f + ".mo")).write_text(contents[f])
+        if f == "Latin":
+            (d / "Latin.mo").write_bytes(NOTUTF8)
+        else:
+            (d / (f + ".mo")).write_text(contents[f])
     out = Path(tmp) / "out"
     if not bad_outdir:
         out.mkdir()
@@ -60,21 +65,21 @@ def expected(files, missing_paths, bad_outdir, models, target, options):
     if not files:
         return ("return", 1)
     if target != "casadi":
-        nbad = sum(1 for f in files if f == "Broken")
+        nbad = sum(1 for f in files if f in ("Broken", "Latin"))
         if nbad:
             return ("return", nbad)
         return ("return", sum(0 if (MODEL_OK[m] and m in files) else 1 for m in models))
     # casadi: a model needs its own file; all files of the folder are compiled together
     fails = 0
     for m in models:
-        if m not in files or not MODEL_OK[m] or "Broken" in files:
+        if m not in files or not MODEL_OK[m] or "Broken" in files or "Latin" in files:
             fails += 1
     return ("return", fails)
 
 
 def cases(tier):
     out = []
-    file_sets = [["Good"], ["Good", "Fine"], ["Good", "Unf"], ["Good", "Broken"], []]
+    file_sets = [["Good"], ["Good", "Fine"], ["Good", "Unf"], ["Good", "Broken"], [], ["Good", "Latin"], ["Broken", "Good", "Latin"]]
     model_sets = [[], ["Good"], ["Nope"], ["Unf"], ["Good", "Fine"], ["Good", "Nope"], ["Nope", "Good"], ["Unf", "Good"], ["Good", "Good"]]
     for files in file_sets:
         for models in model_sets:
@@ -125,7 +130,7 @@ def main():
                 break
     if payload.get("mode") == "bounded":
         print(json.dumps({"performed": True, "cases": n, "distinct_nontrivial": n, "failures": failures,
-                          "rule": "real tools.compiler.main on temp trees: file sets x model lists (valid, unflattenable, unknown, repeated, both orders) x target (none/sympy/casadi) "
+                          "rule": "real tools.compiler.main on temp trees: file sets (valid, syntactically broken, not UTF-8 encoded) x model lists (valid, unflattenable, unknown, repeated, both orders) x target (none/sympy/casadi) "
                                   "plus usage-error combinations; status compared with an oracle count",
                           "bound": "%d invocations" % n}))
     else:
